@@ -49,6 +49,8 @@ type Case struct {
 	// reflect-based references (PkgExposeOf / PkgExposeFor)
 	Expose       string `json:"reflect_based_reference,omitempty"`
 	ExposeTarget string `json:"rendered_into_a_file_of,omitempty"`
+	// a reference rendered into another writer from inside a rendering
+	Nested *NestedCase `json:"nested_rendering,omitempty"`
 }
 
 func validName(n string) bool { return token.IsIdentifier(n) && n != "_" }
@@ -554,6 +556,9 @@ func run(c *core.Ctx) {
 	if c.Next() {
 		checkExposeOf(c)
 	}
+	if c.Next() {
+		checkNested(c)
+	}
 	c.Bound("reflect_based_references", "PkgExposeOf / PkgExposeFor of a plain type, of generic instantiations whose arguments come from a package with a dotted directory name, and of a type of that package; rendered into a file of another package, of the generic's package and of the dotted package")
 	core.Explore(c, core.ExploreOpts{Bound: -1}, func(ch *core.Chooser, _ bool) {
 		var parts []string
@@ -628,6 +633,8 @@ func replay(c *core.Ctx, raw json.RawMessage) {
 		return
 	}
 	switch {
+	case cs.Nested != nil:
+		checkNestedOne(c, *cs.Nested)
 	case cs.Expose != "":
 		checkExposeOf(c)
 	case len(cs.Sessions) > 0:
